@@ -58,10 +58,10 @@ ASSUMPTIONS = [
     "measure-directly: both sides are asked for the same named basis (post-processing is only defined then)",
 ]
 PROBES = ["bell:PHI_PLUS", "bell:PSI_PLUS", "bell:PSI_MINUS", "bell:PHI_MINUS", "variant:recv_keep", "variant:recv_keep_info",
-          "variant:recv_keep_post", "variant:recv_rsp", "variant:recv_measure", "pairs>=2", "other-live-qubits", "nv",
+          "variant:recv_keep_post", "variant:recv_rsp", "variant:recv_rsp_info", "variant:recv_measure", "pairs>=2", "other-live-qubits", "nv",
           "expect-off", "correction-due-on-pair>=1", "basis-non-Z"]
 
-VARIANTS = ["recv_keep", "recv_keep_info", "recv_keep_post", "recv_rsp", "recv_measure"]
+VARIANTS = ["recv_keep", "recv_keep_info", "recv_keep_post", "recv_rsp", "recv_measure", "recv_rsp_info"]
 BASES = [EprMeasBasis.Z, EprMeasBasis.X, EprMeasBasis.Y, EprMeasBasis.MX, EprMeasBasis.MY, EprMeasBasis.MZ]
 
 
@@ -79,24 +79,24 @@ def run(ch: Choices, opts: Dict[str, Any]) -> Dict[str, Any]:
     avoid = set(opts.get("avoid", ()))
     trace = Trace()
     calm = ch.flag(1, 10, "calm")
-    variant = VARIANTS[ch.weighted([4, 2, 3, 2, 3], "variant")]
+    variant = VARIANTS[ch.weighted([4, 2, 3, 2, 3, 2], "variant")]
     n_pairs = 1 if calm else 1 + ch.weighted([3, 4, 2, 2], "npairs")
     expect = not ch.flag(1, 5, "expect-off")
     hw = "generic" if calm else ch.pick(["generic", "generic", "nv"])
     transp = hw == "nv" and ch.flag(1, 2, "transpiler")
     n_other = 0 if calm else ch.draw(3, "nother")
-    if "corrections-with-shifted-ids" in avoid and variant in ("recv_keep", "recv_keep_info", "recv_rsp") and hw == "generic":
+    if "corrections-with-shifted-ids" in avoid and variant in ("recv_keep", "recv_keep_info", "recv_rsp", "recv_rsp_info") and hw == "generic":
         # recorded finding: corrections address virtual qubit 0 -> only exercise layouts where pair i sits on id 0
         n_pairs = 1
         n_other = 0
-    if "nv-rsp-multi" in avoid and variant == "recv_rsp" and hw == "nv":
+    if "nv-rsp-multi" in avoid and variant in ("recv_rsp", "recv_rsp_info") and hw == "nv":
         n_pairs = 1
     if "measure-basis-unknown-to-receiver" in avoid:
         basis = EprMeasBasis.Z
     else:
         basis = BASES[ch.draw(6, "basis")]
     budget = max(n_pairs + n_other + (1 if hw == "nv" else 0), 2)
-    if hw == "nv" and variant in ("recv_keep", "recv_keep_info", "recv_rsp") and n_pairs >= 2 and n_other > 0:
+    if hw == "nv" and variant in ("recv_keep", "recv_keep_info", "recv_rsp", "recv_rsp_info") and n_pairs >= 2 and n_other > 0:
         n_other = 0   # C09's recorded finding (NV multi-pair keep with a live qubit) is not this property's business
     mode = "time" if calm else ch.pick(["mix", "time"])
     sched = Sched(ch, trace, mode=mode, max_cost=0 if calm else 30)
@@ -158,7 +158,7 @@ def run(ch: Choices, opts: Dict[str, Any]) -> Dict[str, Any]:
             if variant == "recv_measure":
                 res = sock.create_measure(number=n_pairs, basis_local=basis, basis_remote=basis)
                 state["cres"] = res
-            elif variant == "recv_rsp":
+            elif variant in ("recv_rsp", "recv_rsp_info"):
                 res = sock.create_rsp(number=n_pairs)
                 state["cres"] = res
             else:
@@ -209,6 +209,10 @@ def run(ch: Choices, opts: Dict[str, Any]) -> Dict[str, Any]:
                 state["outcomes"] = outcomes
             elif variant == "recv_rsp":
                 state["rqs"] = sock.recv_rsp(number=n_pairs, expect_phi_plus=expect)
+            elif variant == "recv_rsp_info":
+                qs, infos = sock.recv_rsp_with_info(number=n_pairs, expect_phi_plus=expect)
+                state["rqs"] = qs
+                state["rinfos"] = infos
             else:
                 state["rres"] = sock.recv_measure(number=n_pairs, expect_phi_plus=expect)
             conn.flush()
@@ -254,19 +258,20 @@ def run(ch: Choices, opts: Dict[str, Any]) -> Dict[str, Any]:
     uni = net.uni
     rconn, cconn = state["rconn"], state["cconn"]
     EPS = 1e-9
-    if variant in ("recv_keep", "recv_keep_info", "recv_rsp"):
+    is_rsp = variant in ("recv_rsp", "recv_rsp_info")
+    if variant in ("recv_keep", "recv_keep_info", "recv_rsp", "recv_rsp_info"):
         for i, q in enumerate(state["rqs"]):
             rslot = net.slot_of(receiver, rconn.app_id, q.qubit_id)
             pair = net.qlink.pairs[i]
             cslot = None
-            if variant != "recv_rsp":
+            if not is_rsp:
                 # the creator's half may have been moved to a memory qubit: follow the creator's handle
                 cslot = net.slot_of(creator, cconn.app_id, state["cqs"][i].qubit_id)
                 if cslot is None:
                     raise Violation("state", f"keep|creator-qubit-not-allocated|{variant}|{hw}", {"pair": i, **sample})
             if rslot is None:
                 raise Violation("state", f"keep|receiver-qubit-not-allocated|{variant}|{hw}", {"pair": i, **sample})
-            if variant == "recv_rsp":
+            if is_rsp:
                 # the creator's half was measured by the link: the receiver's qubit is then a basis state; with the
                 # expectation on, outcome m must leave |m> (Phi+ correlation in Z), else the delivered correlation
                 oc = pair["out"][0]
@@ -292,7 +297,7 @@ def run(ch: Choices, opts: Dict[str, Any]) -> Dict[str, Any]:
             if f < 1 - EPS:
                 raise Violation("state", f"keep|other-qubit-disturbed|{variant}|{hw}",
                                 {"other": j, "virtual_id": q.qubit_id, "fidelity": f, **sample})
-        if variant == "recv_keep_info":
+        if variant in ("recv_keep_info", "recv_rsp_info"):
             for i, info in enumerate(state["rinfos"]):
                 if info.bell_state.value != net.qlink.pairs[i]["bell"].value:
                     raise Violation("state", f"keep|info-bell-state-wrong|{hw}", {"pair": i, **sample})
